@@ -57,6 +57,63 @@ def linked_law_needs_active_contact(ctx):
                     "(friction force on an open contact)", f"{rel}:{ap.lineno}")
 
 
+def rejection_falsifiable(ctx, fn, C):
+    """`assert all(g_N >= 0 or A_N)` rejects a penetrating state only if A_N ("the contact is closed") is FALSE for g_N clearly below zero,
+    i.e. if A_N is a two-sided closeness test (np.isclose(g_N, 0), abs(g_N) <= tol).  A one-sided `g_N <= tol` contains every penetrating
+    state, the assertion can never fail, and a penetrating or approaching contact is treated as a persistent one (la_N0 = weight, u_dot0 = 0).
+    For each assert of the form  X >= 0  or  S : the set S must not be implied by X < 0."""
+    rep = ctx.rep
+    local = {}
+    for n in ast.walk(fn):
+        if isinstance(n, ast.Assign) and len(n.targets) == 1 and isinstance(n.targets[0], ast.Name):
+            local.setdefault(n.targets[0].id, []).append(n)
+    n_ = 0
+    for a in [x for x in ast.walk(fn) if isinstance(x, ast.Assert)]:
+        lo = [w for w in ast.walk(a.test) if isinstance(w, ast.Call) and (dotted(w.func) or "").split(".")[-1] == "logical_or" and len(w.args) == 2]
+        for call in lo:
+            ge, S = call.args
+            if not (isinstance(ge, ast.Compare) and len(ge.ops) == 1 and isinstance(ge.ops[0], (ast.GtE, ast.Gt)) and isinstance(S, ast.Name)):
+                continue
+            n_ += 1
+            X = ge.left
+            xnames = {w.id for w in ast.walk(X) if isinstance(w, ast.Name)}
+            # definition of S before the assert (last one textually before it)
+            defs = [d for d in local.get(S.id, []) if d.lineno < a.lineno]
+            if not defs:
+                rep.ok("C16.R10", C, f"`{norm_src(call)[:60]}`: definition of {S.id} not found (no verdict)", verdict="unknown", trivial=True)
+                continue
+            d = defs[-1].value
+            # factors of a product A * B: the quantity's own closeness factor is the one mentioning a name of X that is not another set
+            factors = []
+            def split(e):
+                if isinstance(e, ast.BinOp) and isinstance(e.op, (ast.Mult, ast.BitAnd)):
+                    split(e.left); split(e.right)
+                else:
+                    factors.append(e)
+            split(d)
+            own = [f for f in factors if ({w.id for w in ast.walk(f) if isinstance(w, ast.Name)} & (xnames - set(local.get(S.id) and [S.id] or [])))
+                   and not isinstance(f, ast.Name)]
+            own = [f for f in own if any(isinstance(w, ast.Name) and w.id in xnames and w.id not in ("np",) and not w.id.startswith(("A_", "B_")) for w in ast.walk(f))]
+            verdict = None
+            for f in own:
+                one_sided = isinstance(f, ast.Compare) and len(f.ops) == 1 and isinstance(f.ops[0], (ast.Lt, ast.LtE)) \
+                    and not any(isinstance(w, ast.Call) and (dotted(w.func) or "").split(".")[-1] in ("abs", "absolute", "fabs") for w in ast.walk(f.left))
+                two_sided = any(isinstance(w, ast.Call) and (dotted(w.func) or "").split(".")[-1] in ("isclose", "abs", "absolute", "fabs") for w in ast.walk(f))
+                if one_sided:
+                    verdict = ("bad", f)
+                elif two_sided and verdict is None:
+                    verdict = ("ok", f)
+            if verdict is None:
+                rep.ok("C16.R10", C, f"`{norm_src(call)[:60]}`: form of {S.id} = `{norm_src(d)[:50]}` not recognised (no verdict)", verdict="unknown", trivial=True)
+            elif verdict[0] == "ok":
+                rep.ok("C16.R10", C, f"`{norm_src(call)[:60]}` can fail: {S.id} tests `{norm_src(verdict[1])[:50]}` two-sidedly")
+            else:
+                rep.bad("C16.R10", C, defs[-1], f"`{S.id} = {norm_src(d)}` is one-sided: it holds for every `{norm_src(X)}` below zero, so `{norm_src(call)}` is always true and the assertion "
+                        "cannot reject a penetrating / approaching contact (it is then treated as a persistent contact with la_N0 = weight)", f"{SB}:{defs[-1].lineno}")
+    if n_ < 2:
+        raise AnalysisError(f"{C}: fewer than 2 rejection asserts of the form logical_or(X >= 0, set) found")
+
+
 def fixed_point_gate(ctx, fn, C):
     """The contact fixed point solves for the forces of the active normal contacts AND of the active friction laws; the latter
     include laws with a constant force reservoir (friction_laws entry with an empty normal index), which are active without
@@ -147,6 +204,8 @@ def run(ctx):
     rep.rule("C16.R5", "one scalar prox parameter per vector-valued friction law (Coulomb direction at acceleration level)", 2)
     fn = ctx.repo.get(SB, "consistent_initial_conditions")
     C = f"{SB}:consistent_initial_conditions"
+    rep.rule("C16.R10", "the contact rejection asserts can fail: the closed-contact sets they excuse are two-sided closeness tests", 2)
+    rejection_falsifiable(ctx, fn, C)
     rep.rule("C16.R8", "the contact fixed point runs whenever an active set it solves for is non-empty (constant-reservoir friction)", 2)
     loop = fixed_point_gate(ctx, fn, C)
     rep.rule("C16.R9", "all unknowns of the initial linear system are taken from the converged solve", 3)
@@ -321,7 +380,15 @@ MUTANTS += [
                 (SB, "    u_dot0, la_g0, la_gamma0 = np.array_split(x0, split_x)\n", "    u_dot0 = x0[: system.nu]\n")],
          expect="C16.R9"),
 ]
+MUTANTS += [
+    dict(id="c16-r10-seed", canary=True, what="[seeded by sub-agent] closed-contact sets defined one-sidedly (g_N <= tol)", file=SB,
+         old="    A_N = np.isclose(g_N, np.zeros(system.nla_N), atol=IS_CLOSE_ATOL)\n    B_N = A_N * np.isclose(g_N_dot, np.zeros(system.nla_N), atol=IS_CLOSE_ATOL)\n",
+         new="    A_N = g_N <= IS_CLOSE_ATOL\n    B_N = A_N * (g_N_dot <= IS_CLOSE_ATOL)\n", expect="C16.R10"),
+]
 NEUTRAL = [
+    dict(id="c16-n-r10", canary=True, what="closed-contact sets written with abs() <= tol", file=SB,
+         old="    A_N = np.isclose(g_N, np.zeros(system.nla_N), atol=IS_CLOSE_ATOL)\n    B_N = A_N * np.isclose(g_N_dot, np.zeros(system.nla_N), atol=IS_CLOSE_ATOL)\n",
+         new="    A_N = np.abs(g_N) <= IS_CLOSE_ATOL\n    B_N = A_N * (np.abs(g_N_dot) <= IS_CLOSE_ATOL)\n"),
     dict(id="c16-n-r8", canary=True, what="fixed point unguarded", file=SB,
          old="    if len(B_N) > 0 or len(B_F) > 0:\n", new="    if True:\n"),
     dict(id="c16-n-r9", what="solution split through slices instead of array_split", file=SB,
